@@ -238,11 +238,20 @@ macro_rules! float_case_impl {
                 c.out.push(Finding { props: "C05", identity: "non-contiguous encoder vs decoder constructor | one accepts what the other rejects".into(), detail: format!("{:?}", input) });
             }
             // ---- symbol lists whose length differs from the table's (C19): clean failure or a valid model
-            for (variant, labs) in [("one symbol too few", labels[..n.saturating_sub(1)].to_vec()), ("one symbol too many", { let mut l = labels.clone(); l.push(424242); l })] {
+            let dup_last = { let mut l = labels.clone(); if n >= 2 { l[n - 1] = l[0]; } l };
+            let dup_first = { let mut l = labels.clone(); if n >= 3 { l[1] = l[0]; } l };
+            for (variant, labs) in [("one symbol too few", labels[..n.saturating_sub(1)].to_vec()), ("one symbol too many", { let mut l = labels.clone(); l.push(424242); l }),
+                ("last label repeats the first", dup_last), ("second label repeats the first", dup_first)] {
+                if variant.contains("repeats") && (n < 2 || (variant.starts_with("second") && n < 3)) { continue; }
                 let inp = (t.to_vec(), norm, variant);
-                let cls = "symbol list of a different length than the probability list";
+                let cls = if variant.contains("repeats") { "symbol list with a repeated label" } else { "symbol list of a different length than the probability list" };
                 let site = "NonContiguousCategoricalDecoderModel::from_symbols_and_floating_point_probabilities_fast";
-                if let Some(d) = construct(c, site, &inp, || NonContiguousCategoricalDecoderModel::<u32, $Pr, _, $P>::from_symbols_and_floating_point_probabilities_fast(labs.iter().copied(), t, norm_val)) {
+                // (a decoder-only table may map two quantile ranges to one label - nothing in C19/C03 forbids a
+                // non-injective labelling of a decoder table, DESIGN.md 6.3 - so repeated labels are judged on the
+                // ENCODER constructor only, where a label must have exactly one interval)
+                let repeats = variant.contains("repeats");
+                if repeats { c.sink.count("duplicate_symbol_lists_offered", 1); }
+                if let Some(d) = (if repeats { None } else { construct(c, site, &inp, || NonContiguousCategoricalDecoderModel::<u32, $Pr, _, $P>::from_symbols_and_floating_point_probabilities_fast(labs.iter().copied(), t, norm_val)) }) {
                     let qs: Vec<u64> = if $P <= 12 { (0..(1u64 << $P)).collect() } else { quantiles::<u32>(&[], $P) };
                     query(c, site, cls, &inp, "C19", || { let r = dec_rows::<_, u32, $P>(&d, &qs)?; if $P <= 12 { check_tiling(&r, $P)?; } else if d.support_size() < 2 { return Err("model over 1 symbol(s): degenerate".into()); } Ok(()) });
                 }
@@ -250,7 +259,7 @@ macro_rules! float_case_impl {
                 if let Some(e) = construct(c, site, &inp, || NonContiguousCategoricalEncoderModel::<u32, $Pr, $P>::from_symbols_and_floating_point_probabilities_fast(labs.iter().copied(), t, norm_val)) {
                     query(c, site, cls, &inp, "C19", || { let k = e.support_size().min(labs.len()); let mut r = enc_rows::<_, u32, $P>(&e, &labs[..k])?; r.sort_by_key(|x| x.1); check_tiling(&r, $P) });
                 }
-                float_case_impl!(@nclookup $lookup, c, labs, inp, cls, $Pr, $P, t, norm_val);
+                if !repeats { float_case_impl!(@nclookup $lookup, c, labs, inp, cls, $Pr, $P, t, norm_val); }
             }
         }
     };
